@@ -17,6 +17,7 @@ package internal
 import (
 	"maps"
 	"net/http"
+	"slices"
 	"strings"
 	"time"
 )
@@ -89,15 +90,30 @@ func (r *responseStorer) StoreResponse(
 	// existing reference to the same variant are dropped before the new one is
 	// added, so repeated requests for one variant never grow the index.
 	updated := make(ResponseRefs, 0, len(refs)+1)
+	var replaced *ResponseRef
 	for i, ref := range refs {
 		if ref == nil || i == refIndex || sameVariant(ref, refEntry) {
+			if ref != nil && i == refIndex {
+				replaced = ref
+			}
 			continue
 		}
 		updated = append(updated, ref)
 	}
 	updated = append(updated, refEntry)
 
-	return r.cache.SetRefs(urlKey, updated)
+	if err := r.cache.SetRefs(urlKey, updated); err != nil {
+		return err
+	}
+	// The entry of the replaced reference is unreachable once no reference
+	// uses its ID any more: remove it, so that replacements under changing
+	// IDs (a new validator, a changed Vary) do not pile up entries.
+	if replaced != nil && !slices.ContainsFunc(updated, func(ref *ResponseRef) bool {
+		return ref.ResponseID == replaced.ResponseID
+	}) {
+		_ = r.cache.Delete(replaced.ResponseID)
+	}
+	return nil
 }
 
 // sameVariant reports whether two references denote the same stored variant:
